@@ -6,6 +6,7 @@ def undash (s : String) : String := if s == "-" then "" else s
 
 def reply? (s : String) : Option Reply :=
   if s == "x" then some .fail else
+  if s == "c" then some .cancel else
   match s.splitOn ":" with
   | status :: rest =>
     -- the problem type may itself contain ':' — the nonce is the last field
